@@ -455,6 +455,36 @@ class NumInterp(Interp):
                 if isinstance(recv, list):
                     recv.append(self.ev(n.args[0]))
                     return None
+            # own-method following: `self.<helper>(...)` where the rule supplied the class's methods (an extracted private helper is
+            # interpreted like the code it was extracted from)
+            meths = getattr(self, 'methods', None)
+            if meths and isinstance(n.func, ast.Attribute) and isinstance(n.func.value, ast.Name) and n.func.value.id in ('self', 'cls') \
+                    and n.func.attr in meths and getattr(self, 'depth', 0) < 4 and 'self' in self.env:
+                fnode = meths[n.func.attr]
+                decs = {ast.unparse(d_) for d_ in fnode.decorator_list}
+                pos = fnode.args.posonlyargs + fnode.args.args
+                if 'staticmethod' not in decs:
+                    pos = pos[1:]
+                env = {} if 'staticmethod' in decs else {(fnode.args.posonlyargs + fnode.args.args)[0].arg: self.env['self']}
+                dflt = fnode.args.defaults
+                allpos = fnode.args.posonlyargs + fnode.args.args
+                for i_, a_ in enumerate(allpos):
+                    j_ = i_ - (len(allpos) - len(dflt))
+                    if j_ >= 0:
+                        env[a_.arg] = self.ev(dflt[j_])
+                for a_, d_ in zip(fnode.args.kwonlyargs, fnode.args.kw_defaults):
+                    if d_ is not None:
+                        env[a_.arg] = self.ev(d_)
+                for i_, a_ in enumerate(n.args):
+                    env[pos[i_].arg] = self.ev(a_)
+                for k_ in n.keywords:
+                    env[k_.arg] = self.ev(k_.value)
+                sub = NumInterp(env, call_hook=self.call_hook, attr_hook=self.attr_hook)
+                sub.resolver = getattr(self, 'resolver', None)
+                sub.methods = meths
+                sub.builtins = self.builtins
+                sub.depth = getattr(self, 'depth', 0) + 1
+                return sub.call(fnode)
             try:
                 f = self.ev(n.func)
             except Unsupported:
@@ -481,6 +511,7 @@ class NumInterp(Interp):
                         env[k.arg] = self.ev(k.value)
                     sub = NumInterp(env, call_hook=self.call_hook, attr_hook=self.attr_hook)
                     sub.resolver = self.resolver
+                    sub.methods = getattr(self, 'methods', None)
                     sub.depth = getattr(self, 'depth', 0) + 1
                     return sub.call(fnode)
             if callable(f):
